@@ -43,6 +43,9 @@ func genC17(t *rapid.T) ClusterCase {
 	if m.Mode == "atrest" && rapid.IntRange(0, 3).Draw(t, "compactAfterRead") == 0 {
 		m.CompactAfterRead = true
 	}
+	if m.Mode == "atrest" && m.Role == "follower" && rapid.IntRange(0, 2).Draw(t, "restartMid") == 0 {
+		m.RestartMid = true
+	}
 	c.Mut = m
 	return c
 }
@@ -233,6 +236,14 @@ func runC17WithSim(s *sim, c ClusterCase) (res common.Result) {
 			defer tn.rest.setAfterGet(nil)
 			res.Classes = append(res.Classes, "compaction-right-after-last-read")
 		}
+	}
+	if m.RestartMid && m.Role == "follower" && m.Mode == "atrest" && len(c.Epi) > 0 {
+		if f := s.replicate(target, 1+m.Frac%len(c.Epi), []int{1}, nil); f != nil {
+			return fail(f)
+		}
+		tn.Restart()
+		s.nodeEv[target]["restart"] = true
+		res.Classes = append(res.Classes, "restart-inside-divergent-range")
 	}
 	// final checkpoint
 	if m.Role == "leader" {
